@@ -95,7 +95,7 @@ GROUPS += [
           flags=["--no-malloc-may-fail"], must_fail=["reach_end", "reach_two_data_lines_processed", "reach_rejected_file"],
           functions=["ILLread_mps", "read_mps_section", "check_section_order", "read_mps_line_in_section", "read_mps_name", "read_mps_refrow", "read_mps_objnamesense", "read_mps_objsense", "read_mps_objname", "ILLmps_state_init", "ILLmps_set_section"],
           props=["C11", "C18", "C17"], assumed=["mps/sections: the line scanner (ILLmps_next_line), the data-line handlers, mps_fill_in, the symbol table constructor and ILLraw_init_rhs/ranges/bounds are ghost-recording stubs with arbitrary results (decided in rdr/mps_scan_*, mps/line_*, rawlp/*); strcmp on the section keywords is CBMC's model"])
-    for NL, tier in [(3, "quick")]   # the 4-line variant exhausts the 20 GiB address-space limit (not registered)
+    for NL, tier in [(3, "thorough")]   # about 11 minutes on a quiet machine, hence thorough; the 4-line variant exhausts the 20 GiB address-space limit (not registered)
 ]
 
 GROUPS += [
